@@ -59,6 +59,11 @@ def run_case(cs, ctx):
     if mp != 'sm' and rng.random() < 0.5:
         v['lq'] = rng.choice([0, 1, rng.randint(0, min(v['uq'], v['n1']))])
     outdir = ge.fresh_outdir(ctx.workdir, 'c09')
+    if cs % 10 == 9:
+        # the generator and the solver must agree on where a file lives, whatever the directory is called
+        import os as _os
+        outdir = _os.path.join(_os.path.dirname(outdir), '$HOME', '${USER}x')
+        ctx.cov('path_with_dollar_sign_components')
     argv = ge.to_argv(v, outdir, rng)
     case = {'cs': cs, 'vector': v, 'gen_argv': [a if a != outdir else '<outdir>' for a in argv]}
     res = ge.run_generator(argv, cs)
